@@ -38,10 +38,9 @@ def replay(col, item):
         tol = 1e-9
         for perm in perms:
             idx = list(perm)
-            diagonal = bool(np.all(D == np.diag(np.diag(D))))
-            # x2_max = 0 puts exact matches ON the window boundary: decidable only where the projection is computed
-            # exactly (diagonal D); for correlated D a tiny positive value is used instead (mid-gap rule)
-            for x2 in ((-1.0, 0.0 if diagonal else 1e-3, 0.5, 50.0) if regime == "spike" else (-1.0,)):
+            # x2_max = 0 puts exact matches ON the window boundary: they must be kept (chi-square 0 does not exceed 0),
+            # for diagonal and for correlated D alike
+            for x2 in ((-1.0, 0.0, 0.5, 50.0) if regime == "spike" else (-1.0,)):
                 conf = {"permutation": idx, "x2_max": x2}
                 try:
                     b = BMCI(y[idx].copy(), x[idx].copy(), D * scale)
